@@ -3,7 +3,7 @@
 # usage: buildharness.sh <out-binary> [extra go build flags...]
 set -e
 export GOFLAGS=-mod=mod GOPROXY=off GOSUMDB=off GOTOOLCHAIN=local
-OUT="$1"; shift
+OUT="$(realpath -m "$1")"; shift
 HERE="$(cd "$(dirname "$0")" && pwd)"
 REPO="${VERIF_REPO:-/repo}"
 OV="$(mktemp /dev/shm/verif-ov.XXXXXX.json 2>/dev/null || mktemp)"
